@@ -321,23 +321,29 @@ Proof.
 Qed.
 
 (* ------------------------------------------------------------------ no coalescing within one operation *)
-Lemma kpush_fresh q e : ~ In e q -> kpush q e = q ++ [e].
+Lemma kpush_fresh q e : (forall x, In x q -> kraw_eqb x e = false) -> kpush q e = q ++ [e].
 Proof.
-  intros H. destruct (kpush_cases q e) as [[_ [q0 ->]]|H']; [|exact H'].
-  exfalso. apply H. apply in_or_app. right. now left.
+  intros H. destruct (kpush_cases q e) as [[_ [q0 [l [-> Hl]]]]|H']; [|exact H'].
+  rewrite (H l) in Hl; [discriminate|]. apply in_or_app. right. now left.
 Qed.
 
-Lemma kcollapse_nodup l : NoDup l -> kcollapse l = l.
+(* records with pairwise different (descriptor, mask, name) are not coalesced *)
+Lemma kcollapse_keys l : NoDup (map kkey l) -> kcollapse l = l.
 Proof.
   induction l as [|e l IH] using rev_ind; intros H; [reflexivity|].
-  rewrite kcollapse_snoc. apply NoDup_remove in H as [H1 H2]. rewrite app_nil_r in *.
-  rewrite (IH H1). apply kpush_fresh. exact H2.
+  rewrite kcollapse_snoc. rewrite map_app in H. cbn [map] in H.
+  apply NoDup_remove in H as [H1 H2]. rewrite app_nil_r in *.
+  rewrite (IH H1). apply kpush_fresh. intros x Hx.
+  destruct (kraw_eqb x e) eqn:E; [|reflexivity]. apply kraw_eqb_key in E.
+  exfalso. apply H2. rewrite <- E. now apply in_map.
 Qed.
 
-Lemma NoDup_filter {A} (f : A -> bool) l : NoDup l -> NoDup (filter f l).
+Lemma NoDup_key_filter {A B} (g : A -> B) (f : A -> bool) l : NoDup (map g l) -> NoDup (map g (filter f l)).
 Proof.
-  induction 1 as [|a l Ha Hl IH]; simpl; [constructor|].
-  destruct (f a); [constructor; [|exact IH] | exact IH]. intros Hin. apply filter_In in Hin. tauto.
+  induction l as [|a l IH]; simpl; intros H; [constructor|]. inversion H as [|? ? Ha Hl]; subst.
+  destruct (f a); [|exact (IH Hl)]. simpl. constructor; [|exact (IH Hl)].
+  intros Hin. apply Ha. apply in_map_iff in Hin as [x [Hx Hin]]. apply filter_In in Hin as [Hin _].
+  rewrite <- Hx. now apply in_map.
 Qed.
 
 (* the masks in the queue: pairwise different and drawn from S *)
@@ -362,8 +368,9 @@ Proof.
   destruct (N.eqb (N.land bit (kw_mask k0)) 0); [split; [exact H1 | intros x Hx; right; now apply H2]|].
   unfold qinv. cbn [k_queue]. fold (nmask bit isdir).
   set (e := {| k_wd := kw_wd k0; k_mask := nmask bit isdir; k_cookie := c; k_name := name |}).
-  assert (Hf : ~ In e (k_queue k)).
-  { intros Hin. apply Hm. apply H2. apply in_map_iff. exists e. split; [reflexivity | exact Hin]. }
+  assert (Hf : forall x, In x (k_queue k) -> kraw_eqb x e = false).
+  { intros x Hin. destruct (kraw_eqb x e) eqn:E; [|reflexivity]. apply kraw_eqb_mask in E.
+    exfalso. apply Hm. apply H2. cbn [e k_mask] in E. rewrite <- E. now apply in_map. }
   rewrite (kpush_fresh _ _ Hf), map_app. cbn [map k_mask e]. split.
   - apply NoDup_snoc; [exact H1|]. intros Hin. apply Hm. now apply H2.
   - intros x Hx. apply in_app_or in Hx as [Hx|[<-|[]]]; [right; now apply H2 | now left].
@@ -389,32 +396,42 @@ Proof.
   set (e := {| k_wd := kw_wd w; k_mask := IN_IGNORED; k_cookie := 0; k_name := [] |}).
   assert (Hni : ~ In IN_IGNORED (map k_mask (k_queue k2))).
   { intros Hin. apply I2 in Hin. destruct Hin as [H|[H|H]]; [discriminate H | discriminate H | exact (Hi H)]. }
-  assert (Hf : ~ In e (k_queue k2)).
-  { intros Hin. apply Hni. apply in_map_iff. exists e. split; [reflexivity | exact Hin]. }
+  assert (Hf : forall x, In x (k_queue k2) -> kraw_eqb x e = false).
+  { intros x Hin. destruct (kraw_eqb x e) eqn:E; [|reflexivity]. apply kraw_eqb_mask in E.
+    exfalso. apply Hni. cbn [e k_mask] in E. rewrite <- E. now apply in_map. }
   rewrite (kpush_fresh _ _ Hf), map_app. cbn [map k_mask e]. split.
   - apply NoDup_snoc; assumption.
   - intros x Hx. apply in_app_or in Hx as [Hx|[<-|[]]]; [right; apply I2; exact Hx | now left].
 Qed.
 
-Lemma kpush_nodup_small q e : (length q <= 1)%nat -> NoDup (kpush q e).
+Lemma kpush_nodup_small q e : (length q <= 1)%nat -> NoDup (map kkey (kpush q e)).
 Proof.
   destruct q as [|a [|b q]]; intros H; [repeat constructor; simpl; tauto | | simpl in H; lia].
   unfold kpush. simpl. destruct (kraw_eqb a e) eqn:E; [repeat constructor; simpl; tauto|].
-  constructor; [|repeat constructor; simpl; tauto].
-  intros [->|[]]. rewrite kraw_eqb_refl in E. discriminate.
+  simpl. constructor; [|repeat constructor; simpl; tauto].
+  intros [K|[]]. symmetry in K. apply kraw_eqb_key in K. congruence.
 Qed.
 
-Lemma qinv_nodup S k : qinv S k -> NoDup (k_queue k).
-Proof. intros [H _]. eapply NoDup_map_inv. exact H. Qed.
+Lemma NoDup_map_proj {A B C} (f : A -> B) (g : B -> C) l : NoDup (map (fun x => g (f x)) l) -> NoDup (map f l).
+Proof.
+  induction l as [|a l IH]; simpl; intros H; [constructor|]. inversion H as [|? ? Ha Hl]; subst.
+  constructor; [|exact (IH Hl)]. intros Hin. apply Ha. apply in_map_iff in Hin as [x [Hx Hin]].
+  apply in_map_iff. exists x. split; [now rewrite Hx | exact Hin].
+Qed.
+
+Lemma qinv_nodup S k : qinv S k -> NoDup (map kkey (k_queue k)).
+Proof.
+  intros [H _]. apply (NoDup_map_proj kkey (fun x : N * N * bytes => snd (fst x))). exact H.
+Qed.
 
 Ltac qsolve Q :=
   eapply qinv_nodup;
   repeat first [ apply kgone_qinv; [shelve | shelve | shelve |] | apply knotify_qinv; [shelve |] ];
   exact Q.
 
-(* starting from an empty queue, the records one operation queues are pairwise different:
-   the kernel coalesces nothing, whatever part of them a watch is sent *)
-Theorem kernel_op_nodup k t o : k_queue k = [] -> NoDup (k_queue (kernel_op k t o)).
+(* starting from an empty queue, the records one operation queues differ pairwise in (descriptor, mask, name) -
+   what the kernel compares: it coalesces nothing, whatever part of them a watch is sent *)
+Theorem kernel_op_nodup k t o : k_queue k = [] -> NoDup (map kkey (k_queue (kernel_op k t o))).
 Proof.
   intros Hq.
   assert (Q0 : qinv [] k) by (unfold qinv; rewrite Hq; split; [constructor | intros m []]).
@@ -545,7 +562,7 @@ Section Step.
     assert (Q0 : kq M' k k') by (unfold kq; rewrite Q, Q'; reflexivity).
     destruct (kernel_op_twin WATCHDOG_ALL M' (kmask_sub F rec) (kmask_nodir F rec) k k' (w_fs w) o T Q0) as [T1 Q1].
     fold kU kF in T1, Q1. unfold kq in Q1.
-    rewrite (kcollapse_nodup _ (NoDup_filter _ _ (kernel_op_nodup k (w_fs w) o Q))) in Q1. fold kU in Q1.
+    rewrite (kcollapse_keys _ (NoDup_key_filter kkey _ _ (kernel_op_nodup k (w_fs w) o Q))) in Q1. fold kU in Q1.
     destruct (read_batch C (w_fs w') (r, kdrained kU, []) (k_queue kU)) as [[[r' kk] raws]|] eqn:Hrd; [|discriminate].
     inversion Hrun; subst w1 k1 r1 evs; clear Hrun.
     pose proof (reader_transparent C (w_fs w') (kkeep M') structural_kept sim_kept _ _ _ _ _ _ _ Hrd) as Hrt.
